@@ -1,6 +1,7 @@
 #!/bin/bash
 # usage: try_patch.sh <patch.diff> <Cxx> [Cyy ...]   applies the patch to /repo, runs the checks, reverts.
 P=$1; shift
+export SCVERIF_EVIDENCE_DIR=/tmp/scverif-seeded-evidence
 cd /repo || exit 2
 if ! git diff --quiet; then echo "/repo is dirty"; exit 2; fi
 if ! git apply --3way "$P" 2>/tmp/apply.err; then echo "APPLY FAILED: $(cat /tmp/apply.err | head -3)"; git reset -q; git checkout HEAD -- . ; exit 3; fi
